@@ -10,6 +10,8 @@ spec fn nfa_tree<V>(n: NfaBuilder<char, V>) -> bool {
             2 <= nfa_edges(n, s)[c] < len && s < nfa_edges(n, s)[c]
     &&& forall|t: int| 2 <= t < len ==> nfa_parent_ok(n, t, #[trigger] nfa_parent(n, t))
     &&& forall|s: int| 0 <= s < len ==> (#[trigger] n.states@[s]).fail < len
+    // the creating edge is the only edge into a state
+    &&& forall|s: int, c: char| 0 <= s < len && #[trigger] nfa_edges(n, s).contains_key(c) ==> nfa_parent(n, nfa_edges(n, s)[c] as int) == (s, c)
 }
 // witness of "every state >= 2 has a parent" (the edge that created it)
 spec fn nfa_parent<V>(n: NfaBuilder<char, V>, t: int) -> (int, char) {
@@ -131,4 +133,57 @@ proof fn lemma_mapped_ok<V>(n: NfaBuilder<char, V>, sid: int, table: Seq<u32>, a
         let i = choose|i: int| 0 <= i < s1.len() && s1[i] == m0[j];
         assert(pair_of(n, sid, table, label, s1[i]));
     }
+}
+
+// ---- stage B: the partially built array encodes the placed part of the NFA ----
+spec fn code_of(table: Seq<u32>, c: char) -> u32 { map_code(table, c as u32).unwrap() }
+
+// inv: slot -> NFA id, the inverse of the placement map on non-root states
+spec fn cwb_inv<V>(n: NfaBuilder<char, V>, map: Seq<u32>, inv: Map<int, int>) -> bool {
+    &&& !inv.contains_key(0) && !inv.contains_key(1)
+    &&& forall|t: int| 2 <= t < map.len() && #[trigger] map[t] != 1 ==> inv.contains_key(map[t] as int) && inv[map[t] as int] == t
+    &&& forall|y: int| #[trigger] inv.contains_key(y) ==> 2 <= inv[y] < map.len() && map[inv[y]] == y
+}
+// slots that hold no state keep the default CHECK (the dead index), occupied slots carry their parent's slot
+spec fn cwb_check<V>(n: NfaBuilder<char, V>, st: Seq<State>, map: Seq<u32>, inv: Map<int, int>) -> bool {
+    &&& forall|y: int| 0 <= y < st.len() && !inv.contains_key(y) ==> (#[trigger] st[y]).check == 1
+    &&& forall|y: int| #[trigger] inv.contains_key(y) ==> 0 <= y < st.len() && st[y].check == map[nfa_parent(n, inv[y]).0]
+}
+// states whose children are placed have their BASE; every BASE belongs to such a state (owner: slot -> NFA id)
+spec fn cwb_base<V>(n: NfaBuilder<char, V>, st: Seq<State>, table: Seq<u32>, map: Seq<u32>, done: Set<int>, owner: Map<int, int>) -> bool {
+    &&& forall|s: int, c: char| done.contains(s) && #[trigger] nfa_edges(n, s).contains_key(c) ==>
+            st[map[s] as int].base.is_some() && map[nfa_edges(n, s)[c] as int] == st[map[s] as int].base.unwrap()@ ^ code_of(table, c)
+    &&& forall|y: int| 0 <= y < st.len() && (#[trigger] st[y]).base.is_some() ==>
+            owner.contains_key(y) && done.contains(owner[y]) && 0 <= owner[y] < map.len() && map[owner[y]] == y
+}
+spec fn cwb_used(inv: Map<int, int>, h: BuildHelper) -> bool {
+    forall|y: int| #[trigger] inv.contains_key(y) && h_active(h, y) ==> h_used_index(h, y)
+}
+// every placed non-root state has a finished parent (cur: the state being processed, -1 if none)
+spec fn cwb_parent<V>(n: NfaBuilder<char, V>, map: Seq<u32>, done: Set<int>, cur: int) -> bool {
+    forall|t: int| 2 <= t < map.len() && #[trigger] map[t] != 1 ==> done.contains(nfa_parent(n, t).0) || nfa_parent(n, t).0 == cur
+}
+
+// what build_double_array establishes: the array encodes the NFA through the placement map idmap
+spec fn cw_encodes<V>(st: Seq<State>, table: Seq<u32>, n: NfaBuilder<char, V>, idmap: Seq<u32>) -> bool {
+    let len = n.states@.len();
+    &&& idmap.len() == len && idmap[0] == 0
+    &&& forall|t: int| 0 <= t < len && t != 1 ==> (#[trigger] idmap[t]) < st.len() && idmap[t] != 1
+    &&& forall|t1: int, t2: int| 0 <= t1 < len && 0 <= t2 < len && t1 != 1 && t2 != 1 && #[trigger] idmap[t1] == #[trigger] idmap[t2] ==> t1 == t2
+    // every NFA edge is an edge of the array
+    &&& forall|s: int, c: char| 0 <= s < len && s != 1 && #[trigger] nfa_edges(n, s).contains_key(c) ==> {
+            let x = idmap[nfa_edges(n, s)[c] as int];
+            &&& st[idmap[s] as int].base.is_some()
+            &&& x == st[idmap[s] as int].base.unwrap()@ ^ code_of(table, c)
+            &&& st[x as int].check == idmap[s]
+        }
+    // and the array has no other edge out of a state slot
+    &&& forall|s: int, mc: u32| 0 <= s < len && s != 1 && st[idmap[s] as int].base.is_some()
+            && 0 <= #[trigger] (st[idmap[s] as int].base.unwrap()@ ^ mc) < st.len()
+            && st[(st[idmap[s] as int].base.unwrap()@ ^ mc) as int].check == idmap[s] ==>
+            exists|c: char| nfa_edges(n, s).contains_key(c) && code_of(table, c) == mc
+                && idmap[nfa_edges(n, s)[c] as int] == (st[idmap[s] as int].base.unwrap()@ ^ mc)
+    // fail links and output positions are copied through idmap
+    &&& forall|s: int| 0 <= s < len && s != 1 ==> (#[trigger] st[idmap[s] as int]).fail == (if n.states@[s].fail == 1 { 1u32 } else { idmap[n.states@[s].fail as int] })
+            && st[idmap[s] as int].output_pos == n.states@[s].output_pos
 }
